@@ -7,6 +7,7 @@
    No proofs in this file. *)
 From Coq Require Import String List NArith ZArith Bool.
 From J5V.lib Require Import Text Outcome.
+From J5V.gen Require TokensGen.
 From J5V.model Require Import BclLexer.
 Import ListNotations.
 Local Open Scope bool_scope.
@@ -170,7 +171,8 @@ Fixpoint pop_elems (pv : wstate -> wres value) (fuel2 : nat) (opener : token) (a
 
 (* maxValueDepth: popValue refuses to open an array nested deeper than this (it recurses once per
    bracket; the bound keeps the recursion, hence the goroutine stack, bounded) *)
-Definition max_value_depth : N := 10000.
+(* const maxValueDepth, as the translator reads it from parser.go *)
+Definition max_value_depth : N := TokensGen.max_value_depth.
 
 Fixpoint pop_value (fuel : nat) (depth : N) (s : wstate) : wres value :=
   match fuel with
